@@ -1306,7 +1306,31 @@ func (p *prover) prove(s site) (bool, string) {
 	if ok, w := checkLT(s.idx, false); !ok {
 		return false, w
 	}
-	return checkLT(s.high, false)
+	if ok, w := checkLT(s.high, false); !ok {
+		return false, w
+	}
+	// both ends given: low ≤ high as well (each end within the length does not order them: `input[i:end]` with
+	// end moved back past i panics)
+	if s.idx != nil && s.high != nil && s.idx != s.high {
+		lo, hi := p.eval(s.idx, b, 0), p.eval(s.high, b, 0)
+		if lo.ok && hi.ok && lo.base == hi.base && lo.hi <= hi.lo {
+			return true, ""
+		}
+		for _, f := range p.facts(b) {
+			op := f.cond.Op
+			if !f.truth {
+				op = negate(op)
+			}
+			switch {
+			case f.cond.X == s.idx && f.cond.Y == s.high && (op == token.LSS || op == token.LEQ || op == token.EQL):
+				return true, ""
+			case f.cond.X == s.high && f.cond.Y == s.idx && (op == token.GTR || op == token.GEQ || op == token.EQL):
+				return true, ""
+			}
+		}
+		return false, fmt.Sprintf("low end %s = %v is not shown to be at most the high end %s = %v", s.idx.Name(), lo, s.high.Name(), hi)
+	}
+	return true, ""
 }
 
 // rewindCounter: x = phi(init, x-1) whose decrement runs only behind x > 0 (x >= 1, x != 0): returns the index of
